@@ -686,14 +686,15 @@ pub fn run(ctx: &Ctx) {
         run_strings(ctx, "error-locations.corpus", "every error!() input of the repository's test corpus", errs.len() as u64, &|i| (errs[i as usize].input.clone(), errs[i as usize].syntax));
         if ctx.thorough() {
             // every single-token deletion of every compiling corpus input that cannot diverge
-            let ok: Vec<&corpus::CorpusCase> = cases.iter().filter(|c| !c.is_error && !c01::may_diverge_when_edited(&c.input) && c.input.len() < 400).collect();
+            // (inputs with @extend are left to C01: one of their neighbours is its listed combinatorial blow-up)
+            let ok: Vec<&corpus::CorpusCase> = cases.iter().filter(|c| !c.is_error && !c01::may_diverge_when_edited(&c.input) && c.input.len() < 400 && !c.input.contains("@extend")).collect();
             let mut idx: Vec<(usize, usize)> = Vec::new();
             for (ci, c) in ok.iter().enumerate() {
                 for ti in 0..c01::tokenize(&c.input).len() {
                     idx.push((ci, ti));
                 }
             }
-            run_strings(ctx, "error-locations.corpus-delete1", "every single-token deletion of every compiling corpus input (< 400 bytes, no @while / recursion)", idx.len() as u64, &|i| {
+            run_strings(ctx, "error-locations.corpus-delete1", "every single-token deletion of every compiling corpus input (< 400 bytes, no @while / recursion / @extend)", idx.len() as u64, &|i| {
                 let (ci, ti) = idx[i as usize];
                 let c = ok[ci];
                 let toks = c01::tokenize(&c.input);
